@@ -10,7 +10,7 @@ CONSTANTS
   MsgsSet = {0, 1, 3, 5}
   BytesSet = {0, 2, 4, 6}
   CompactSet = {FALSE}
-  SkewSet = {0, 0, -3}
+  LagSet = {0, 3}
   BigSet = {FALSE, TRUE}
   MaxCleans = 3
   MaxTicks = 2
